@@ -122,12 +122,14 @@ class C15Machine(Machine):
             if len(inst['fl']) >= 3 and rng.chance(0.5):
                 b['Clustering Channels'] = ', '.join(inst['fl'][:3])
         exp['extra_sheet'] = rng.chance(0.3)
+        if rng.chance(0.05):
+            exp['samples'] = []                       # a Samples sheet with a header and no rows is still well formed
         plot = rng.chance(0.12 if small else 0.25)
         return {'arm': 'run', 'exp': exp, 'plot': plot, 'hist': rng.chance(0.5), 'explicit_out': rng.chance(0.5),
                 'in_name': rng.choice(['experiment.xlsx', 'experiment.xlsx', 'plate.1.xlsx', 'my data v2.0.xlsx', 'a.b.c.xlsx', 'x.xlsx']),
                 'preexisting_dirs': rng.chance(0.4), 'rerun': rng.chance(0.3),
                 'subdir': rng.chance(0.3), 'seed': rng.randint(0, 2 ** 31 - 1), 'dpi': rng.choice([20, 30, 60]),
-                'clock': rng.randint(946684800, 2082758399)}
+                'clock': rng.choice([rng.randint(946684800, 2082758399), 86400 * rng.randint(11000, 24000) - 1])}
 
     def gen_roundtrip(self, rng):
         ncol = rng.randint(1, 5)
@@ -360,7 +362,7 @@ class C15Machine(Machine):
                 plt.close('all')
                 io_seam.close_leaked()
                 x_seam.close_leaked()
-            out['sim_time'] = float(clock.reads)     # the clock does not advance by itself; count reads
+            out['sim_time'] = clock.now - clock.epoch   # the simulated clock advances one second per read
             opt = 'plot=%d/hist=%d/out=%s' % (case['plot'], case['hist'], 'explicit' if out_path else 'default')
             log.add('run', rk, opt, len(ev))
             ncl = 0
@@ -507,9 +509,10 @@ class C15Machine(Machine):
         # About sheet
         ab = sheets[about[0]]
         kv = {r[0]: r[1] for r in ab[1:] if r}
-        d = datetime.datetime.utcfromtimestamp(clock.now)
-        want_date = d.strftime('%Y/%m/%d')
-        want_time = d.strftime('%I:%M:%S%p')
+        # what the simulated clock handed out (last run): date first, then time
+        rets = [v for f, v in clock.returned]
+        want_date = rets[-2] if len(rets) >= 2 else None
+        want_time = rets[-1] if len(rets) >= 2 else None
         if kv.get('Date of analysis') != want_date or kv.get('Time of analysis') != want_time:
             V.append(violation('C15/about', 'clock', 'About sheet says %r %r, simulated clock %r %r' % (
                 kv.get('Date of analysis'), kv.get('Time of analysis'), want_date, want_time)))
